@@ -47,6 +47,27 @@ func firstQuiesceAfter(h *History, seq int) int {
 	return -1
 }
 
+// firstFlowingQuiesceAfter is the first quiescent point after seq at which the broker's writes to connection
+// conn are not held by an injected stall (while they are, "quiescent" only means that nothing can move and an
+// owed answer cannot be written). -1 if there is none.
+func firstFlowingQuiesceAfter(h *History, conn int, seq int) int {
+	stalled := false
+	for _, e := range h.Evs {
+		if e.Conn == conn {
+			switch e.Kind {
+			case "stall-on":
+				stalled = true
+			case "stall-off", "close":
+				stalled = false
+			}
+		}
+		if e.Seq > seq && e.Kind == "quiesce" && !stalled {
+			return e.Seq
+		}
+	}
+	return -1
+}
+
 func peerCloseSeq(h *History, conn int) int {
 	for _, e := range h.Evs {
 		if e.Kind == "close" && e.Conn == conn && e.Str != "broker" {
@@ -542,7 +563,7 @@ func checkC07(r *Result) []Violation {
 			if want == 0 {
 				continue
 			}
-			q := firstQuiesceAfter(r.H, s.Seq)
+			q := firstFlowingQuiesceAfter(r.H, c.Idx, s.Seq)
 			if q < 0 {
 				continue
 			}
